@@ -48,6 +48,7 @@ class Ctx:
         self.nfresh = 0
         self.max_decisions = max_decisions
         self.cuts = []  # stated concretisations / cuts on this path
+        self.decided = {}  # ast id -> (term kept alive, outcome) : conditions already decided on this path
 
     # -- solver plumbing -------------------------------------------------
     def check(self, *assumptions):
@@ -83,6 +84,14 @@ class Ctx:
             return True
         if z3.is_false(cond):
             return False
+        known = self.decided.get(cond.get_id())
+        if known is not None:
+            return known[1]
+        r = self._branch(cond)
+        self.decided[cond.get_id()] = (cond, r)
+        return r
+
+    def _branch(self, cond):
         i = len(self.dec)
         if i >= self.max_decisions:
             raise EngineLimit("decision cap")
@@ -170,26 +179,42 @@ def is_sym(v):
     return isinstance(v, (SymInt, SymBool)) or getattr(v, "_vf_sym", False)
 
 
+_CONST = {}
+
+
+def bvval(v):
+    t = _CONST.get(v)
+    if t is None:
+        if not (_LO <= v <= _HI):
+            raise Unsupported("constant beyond BV%d" % W)
+        t = z3.BitVecVal(v, W)
+        if len(_CONST) < 50000:
+            _CONST[v] = t
+    return t
+
+
 def bv(v):
     """z3 BV(W) term of an int-like value, or None"""
     if isinstance(v, SymInt):
         return v.t
     if isinstance(v, SymBool):
-        return z3.If(v.t, z3.BitVecVal(1, W), z3.BitVecVal(0, W))
-    if isinstance(v, bool):
-        return z3.BitVecVal(int(v), W)
-    if type(v) is int or (isinstance(v, int) and not getattr(v, "_vf_sym", False)):
-        v = int(v)
-        if not (_LO <= v <= _HI):
-            raise Unsupported("constant beyond BV%d" % W)
-        return z3.BitVecVal(v, W)
+        return z3.If(v.t, bvval(1), bvval(0))
+    if type(v) is int:
+        return bvval(v)
+    if isinstance(v, int) and not getattr(v, "_vf_sym", False):
+        return bvval(int(v))
     return None
 
 
-def mk(t):
+def mk(t, r=None):
     t = z3.simplify(t)
     if z3.is_bv_value(t):
         return t.as_signed_long()
+    return SymInt(t, r)
+
+
+def mk_raw(t):
+    """result of an operation that cannot fold to a constant (one operand symbolic)"""
     return SymInt(t)
 
 
@@ -202,98 +227,224 @@ def mkb(t):
     return SymBool(t)
 
 
-def _cmp(op):
+def iv(v):
+    """sound interval (lo, hi) known to contain the value, or None"""
+    if isinstance(v, SymInt):
+        return v.iv
+    if isinstance(v, SymBool):
+        return (0, 1)
+    if isinstance(v, int):
+        v = int(v)
+        return (v, v)
+    return None
+
+
+def _fits(r):
+    return r is not None and _LO // 4 <= r[0] and r[1] <= _HI // 4
+
+
+def _cmp(op, dec):
     def f(self, o):
         b = bv(o)
         if b is None:
             return NotImplemented
+        ia, ib = iv(self), iv(o)
+        if ia is not None and ib is not None:
+            d = dec(ia, ib)
+            if d is not None:
+                return d
         return mkb(op(bv(self), b))
 
     return f
 
 
+def _d_lt(a, b):
+    return True if a[1] < b[0] else False if a[0] >= b[1] else None
+
+
+def _d_le(a, b):
+    return True if a[1] <= b[0] else False if a[0] > b[1] else None
+
+
+def _d_eq(a, b):
+    if a[1] < b[0] or b[1] < a[0]:
+        return False
+    if a[0] == a[1] == b[0] == b[1]:
+        return True
+    return None
+
+
+def _d_ne(a, b):
+    r = _d_eq(a, b)
+    return None if r is None else not r
+
+
 def _oblig(c):
     ctx = CTX
     if ctx is not None:
-        c = z3.simplify(c)
-        if not z3.is_true(c):
-            ctx.oblig.append(c)
+        ctx.oblig.append(c)
 
 
-def _add(a, b):
-    _oblig(z3.And(z3.BVAddNoOverflow(a, b, True), z3.BVAddNoUnderflow(a, b)))
+def _add(a, b, r=None):
+    if not _fits(r):
+        _oblig(z3.And(z3.BVAddNoOverflow(a, b, True), z3.BVAddNoUnderflow(a, b)))
     return a + b
 
 
-def _sub(a, b):
-    _oblig(z3.And(z3.BVSubNoOverflow(a, b), z3.BVSubNoUnderflow(a, b, True)))
+def _sub(a, b, r=None):
+    if not _fits(r):
+        _oblig(z3.And(z3.BVSubNoOverflow(a, b), z3.BVSubNoUnderflow(a, b, True)))
     return a - b
 
 
-def _mul(a, b):
-    _oblig(z3.And(z3.BVMulNoOverflow(a, b, True), z3.BVMulNoUnderflow(a, b)))
+def _mul(a, b, r=None):
+    if not _fits(r):
+        _oblig(z3.And(z3.BVMulNoOverflow(a, b, True), z3.BVMulNoUnderflow(a, b)))
     return a * b
 
 
-def _shl(a, b):
-    if not z3.is_bv_value(z3.simplify(b)):
+def _shl(a, b, r=None):
+    bb = z3.simplify(b)
+    if not z3.is_bv_value(bb):
         raise Unsupported("shift by symbolic amount")
-    k = z3.simplify(b).as_signed_long()
+    k = bb.as_signed_long()
     if k < 0:
         raise ValueError("negative shift count")
     if k >= W:
         raise Unsupported("shift beyond BV width")
-    r = a << b
-    _oblig((r >> b) == a)
-    return r
+    res = a << b
+    if not _fits(r):
+        _oblig((res >> b) == a)
+    return res
 
 
-def _shr(a, b):
+def _shr(a, b, r=None):
     bb = z3.simplify(b)
     if z3.is_bv_value(bb):
         k = bb.as_signed_long()
         if k < 0:
             raise ValueError("negative shift count")
         if k >= W:
-            return z3.If(a < 0, z3.BitVecVal(-1, W), z3.BitVecVal(0, W))
+            return z3.If(a < 0, bvval(-1), bvval(0))
         return a >> b
     raise Unsupported("shift by symbolic amount")
 
 
-def _floordiv(a, b):
+def _floordiv(a, b, r=None):
     # Python floor division on BV terms (b != 0 decided by caller)
     q = a / b  # signed, truncating
-    r = z3.SRem(a, b)
-    return z3.If(z3.And(r != 0, (r < 0) != (b < 0)), q - 1, q)
+    rem = z3.SRem(a, b)
+    return z3.If(z3.And(rem != 0, (rem < 0) != (b < 0)), q - 1, q)
 
 
-def _mod(a, b):
-    r = z3.SRem(a, b)
-    return z3.If(z3.And(r != 0, (r < 0) != (b < 0)), r + b, r)
+def _mod(a, b, r=None):
+    rem = z3.SRem(a, b)
+    return z3.If(z3.And(rem != 0, (rem < 0) != (b < 0)), rem + b, rem)
 
 
-def _bin(op, rev=False):
+def _mask(n):
+    return (1 << n.bit_length()) - 1
+
+
+def _i_add(a, b):
+    return (a[0] + b[0], a[1] + b[1])
+
+
+def _i_sub(a, b):
+    return (a[0] - b[1], a[1] - b[0])
+
+
+def _i_mul(a, b):
+    c = [a[0] * b[0], a[0] * b[1], a[1] * b[0], a[1] * b[1]]
+    return (min(c), max(c))
+
+
+def _i_and(a, b):
+    if a[0] >= 0 and b[0] >= 0:
+        return (0, min(a[1], b[1]))
+    if a[0] >= 0:
+        return (0, a[1])
+    if b[0] >= 0:
+        return (0, b[1])
+    return None
+
+
+def _i_or(a, b):
+    if a[0] >= 0 and b[0] >= 0:
+        return (max(a[0], b[0]), _mask(max(a[1], b[1])))
+    return None
+
+
+def _i_xor(a, b):
+    if a[0] >= 0 and b[0] >= 0:
+        return (0, _mask(max(a[1], b[1])))
+    return None
+
+
+def _i_shl(a, b):
+    if b[0] == b[1] and 0 <= b[0] < W:
+        return (a[0] << b[0], a[1] << b[0])
+    return None
+
+
+def _i_shr(a, b):
+    if b[0] == b[1] and b[0] >= 0:
+        return (a[0] >> b[0], a[1] >> b[0])
+    return None
+
+
+def _i_floordiv(a, b):
+    if b[0] == b[1] and b[0] > 0:
+        return (a[0] // b[0], a[1] // b[0])
+    return None
+
+
+def _i_mod(a, b):
+    if b[0] == b[1] and b[0] > 0:
+        if a[0] >= 0 and a[1] < b[0]:
+            return a
+        return (0, b[0] - 1)
+    return None
+
+
+def _bin(op, ivop=None, rev=False):
     def f(self, o):
         b = bv(o)
         if b is None:
             return NotImplemented
         a = bv(self)
-        return mk(op(b, a) if rev else op(a, b))
+        ia, ib = iv(self), iv(o)
+        if rev:
+            a, b, ia, ib = b, a, ib, ia
+        r = ivop(ia, ib) if (ivop is not None and ia is not None and ib is not None) else None
+        if r is not None and r[0] == r[1]:
+            return r[0]
+        t = z3.simplify(op(a, b, r))
+        if z3.is_bv_value(t):
+            return t.as_signed_long()
+        return SymInt(t, r)
 
     return f
 
 
-def _divlike(op, rev=False):
+def _divlike(op, ivop, rev=False):
     def f(self, o):
         b = bv(o)
         if b is None:
             return NotImplemented
         a = bv(self)
+        ia, ib = iv(self), iv(o)
         if rev:
-            a, b = b, a
-        if B(b == 0):
+            a, b, ia, ib = b, a, ib, ia
+        if not (ib is not None and (ib[0] > 0 or ib[1] < 0)) and B(b == 0):
             raise ZeroDivisionError("integer division or modulo by zero")
-        return mk(op(a, b))
+        r = ivop(ia, ib) if (ia is not None and ib is not None) else None
+        if r is not None and r[0] == r[1]:
+            return r[0]
+        t = z3.simplify(op(a, b, r))
+        if z3.is_bv_value(t):
+            return t.as_signed_long()
+        return SymInt(t, r)
 
     return f
 
@@ -317,32 +468,32 @@ class _IntOps:
     __slots__ = ()
     _vf_sym = True
 
-    __eq__ = _cmp(lambda a, b: a == b)
-    __ne__ = _cmp(lambda a, b: a != b)
-    __lt__ = _cmp(lambda a, b: a < b)
-    __le__ = _cmp(lambda a, b: a <= b)
-    __gt__ = _cmp(lambda a, b: a > b)
-    __ge__ = _cmp(lambda a, b: a >= b)
-    __add__ = _bin(_add)
-    __radd__ = _bin(_add, True)
-    __sub__ = _bin(_sub)
-    __rsub__ = _bin(_sub, True)
-    __mul__ = _bin(_mul)
-    __rmul__ = _bin(_mul, True)
-    __and__ = _bin(lambda a, b: a & b)
+    __eq__ = _cmp(lambda a, b: a == b, _d_eq)
+    __ne__ = _cmp(lambda a, b: a != b, _d_ne)
+    __lt__ = _cmp(lambda a, b: a < b, _d_lt)
+    __le__ = _cmp(lambda a, b: a <= b, _d_le)
+    __gt__ = _cmp(lambda a, b: a > b, lambda a, b: _d_lt(b, a))
+    __ge__ = _cmp(lambda a, b: a >= b, lambda a, b: _d_le(b, a))
+    __add__ = _bin(_add, _i_add)
+    __radd__ = _bin(_add, _i_add, True)
+    __sub__ = _bin(_sub, _i_sub)
+    __rsub__ = _bin(_sub, _i_sub, True)
+    __mul__ = _bin(_mul, _i_mul)
+    __rmul__ = _bin(_mul, _i_mul, True)
+    __and__ = _bin(lambda a, b, r=None: a & b, _i_and)
     __rand__ = __and__
-    __or__ = _bin(lambda a, b: a | b)
+    __or__ = _bin(lambda a, b, r=None: a | b, _i_or)
     __ror__ = __or__
-    __xor__ = _bin(lambda a, b: a ^ b)
+    __xor__ = _bin(lambda a, b, r=None: a ^ b, _i_xor)
     __rxor__ = __xor__
-    __lshift__ = _bin(_shl)
-    __rlshift__ = _bin(_shl, True)
-    __rshift__ = _bin(_shr)
-    __rrshift__ = _bin(_shr, True)
-    __floordiv__ = _divlike(_floordiv)
-    __rfloordiv__ = _divlike(_floordiv, True)
-    __mod__ = _divlike(_mod)
-    __rmod__ = _divlike(_mod, True)
+    __lshift__ = _bin(_shl, _i_shl)
+    __rlshift__ = _bin(_shl, _i_shl, True)
+    __rshift__ = _bin(_shr, _i_shr)
+    __rrshift__ = _bin(_shr, _i_shr, True)
+    __floordiv__ = _divlike(_floordiv, _i_floordiv)
+    __rfloordiv__ = _divlike(_floordiv, _i_floordiv, True)
+    __mod__ = _divlike(_mod, _i_mod)
+    __rmod__ = _divlike(_mod, _i_mod, True)
 
     def __divmod__(self, o):
         return self // o, self % o
@@ -363,17 +514,20 @@ class _IntOps:
         raise Unsupported("true division by a symbolic int")
 
     def __invert__(self):
-        return mk(~bv(self))
+        i = iv(self)
+        return mk(~bv(self), (-i[1] - 1, -i[0] - 1) if i is not None else None)
 
     def __neg__(self):
-        return mk(_sub(z3.BitVecVal(0, W), bv(self)))
+        i = iv(self)
+        r = (-i[1], -i[0]) if i is not None else None
+        return mk(_sub(bvval(0), bv(self), r), r)
 
     def __pos__(self):
         return mk(bv(self))
 
     def __abs__(self):
         a = bv(self)
-        return mk(z3.If(a < 0, _sub(z3.BitVecVal(0, W), a), a))
+        return mk(z3.If(a < 0, _sub(bvval(0), a), a))
 
     def __hash__(self):
         return 0
@@ -395,12 +549,12 @@ class _IntOps:
         r = z3.BitVecVal(0, W)
         for i in range(W - 1):
             r = z3.If(z3.Extract(i, i, a) == 1, z3.BitVecVal(i + 1, W), r)
-        return mk(r)
+        return mk(r, (0, W))
 
     def to_bytes(self, length=1, byteorder="big", *, signed=False):
         if isinstance(length, _IntOps):
             length = length.__index__()
-        me = SymInt(bv(self))
+        me = SymInt(bv(self), iv(self))
         if signed:
             lo, hi = -(1 << (8 * length - 1)), 1 << (8 * length - 1)
         else:
@@ -427,12 +581,16 @@ class _IntOps:
 
 
 class SymInt(_IntOps):
-    __slots__ = ("t",)
+    __slots__ = ("t", "iv")
 
-    def __init__(self, t):
+    def __init__(self, t, iv=None):
         self.t = t
+        self.iv = iv  # sound interval (lo, hi) or None
 
     def __bool__(self):
+        i = self.iv
+        if i is not None and (i[0] > 0 or i[1] < 0):
+            return True
         return cur().branch(self.t != 0)
 
     def __repr__(self):
@@ -558,12 +716,19 @@ class SymBytes(bytes):
         o.items = [_c8(x) for x in items]
         return o
 
+    @classmethod
+    def _raw(cls, items):
+        """items already normalised (ints or simplified 8-bit terms)"""
+        o = bytes.__new__(cls, b"")
+        o.items = items
+        return o
+
     @staticmethod
     def lift(b):
         if isinstance(b, SymBytes):
             return b
         if isinstance(b, (bytes, bytearray, memoryview)):
-            return SymBytes(list(bytes(b)))
+            return SymBytes._raw(list(bytes(b)))
         return None
 
     def is_concrete(self):
@@ -585,19 +750,19 @@ class SymBytes(bytes):
         o = SymBytes.lift(o)
         if o is None:
             return NotImplemented
-        return SymBytes(self.items + o.items)
+        return SymBytes._raw(self.items + o.items)
 
     def __radd__(self, o):
         o = SymBytes.lift(o)
         if o is None:
             return NotImplemented
-        return SymBytes(o.items + self.items)
+        return SymBytes._raw(o.items + self.items)
 
     def __iadd__(self, o):
         return self.__add__(o)
 
     def __mul__(self, n):
-        return SymBytes(self.items * int(n))
+        return SymBytes._raw(self.items * int(n))
 
     __rmul__ = __mul__
 
@@ -608,11 +773,11 @@ class SymBytes(bytes):
                 a = a.__index__()
             if isinstance(b, _IntOps):
                 b = b.__index__()
-            return SymBytes(self.items[slice(a, b, st)])
+            return SymBytes._raw(self.items[slice(a, b, st)])
         if isinstance(i, _IntOps):
             i = i.__index__()
         x = self.items[i]
-        return x if isinstance(x, int) else mk(z3.ZeroExt(W - 8, x))
+        return x if isinstance(x, int) else SymInt(z3.ZeroExt(W - 8, x), (0, 255))
 
     def __iter__(self):
         for i in range(len(self.items)):
